@@ -68,7 +68,7 @@ func c17Files(r *core.Ctx, idx int, big bool) map[string]string {
 		}
 		b = gen.RandomBook(rr, gen.BookOpts{Recipes: 600, Basics: 2, MaxDepth: 2, Exact: true, RecipeNames: names, BasicNames: []string{"x", "y"}, NoEmpty: true})
 		foods := append([]string{"x", "zz"}, names[:300]...)
-		l = gen.RandomLog(rr, gen.LogOpts{Days: 500, MaxEnts: 4, Foods: foods, Exact: true, Sorted: true, Start: gen.Date{Y: 2021, M: 1, D: 24}})
+		l = gen.RandomLog(rr, gen.LogOpts{Days: 500, MaxEnts: 4, Foods: foods, Exact: true, Sorted: true, NoDupFoods: true, Start: gen.Date{Y: 2021, M: 1, D: 24}})
 		l[0].Date = gen.Date{Y: 2021, M: 1, D: 24}
 	}
 	bad := "2021/01/24:\n  ok: 1\n  broken\n  also: 1,5\n\n2021/01/25:\n  x: abc\n"
